@@ -761,7 +761,10 @@ func (c *Compiler) writeNode(node, parent *node, recv, v, vsrc string, depth int
 				}
 				c.wl("_ = ", nv)
 				if mode == modeCmp && ch.ptr {
+					// The nil test is about this field only when the path ends on it.
+					c.wl("if len(path) == ", strconv.Itoa(depth+1), " {")
 					c.writeCmp(ch, nv)
+					c.wl("}")
 				}
 				err := c.writeNode(ch, node, recv, nv, vsrc, depth+1, mode)
 				if err != nil {
